@@ -11,7 +11,6 @@ impl vstd::std_specs::convert::FromSpecImpl<BigNum> for u64 {
     open spec fn from_spec(v: BigNum) -> u64 { v.0 }
 }
 impl From<BigNum> for u64 { #[verifier::external_body] fn from(x: BigNum) -> (r: u64) { unimplemented!() } }
-pub const MAX_INLINE_ENCODING: u64 = 23;
 /// length of the shortest CBOR head for an unsigned argument (what cbor_event writes: Kani kani:cbor_calculator:struct_size_matches_real_cbor_head)
 pub open spec fn uint_len(c: u64) -> nat {
     if c <= 23 { 1 } else if c < 0x100 { 2 } else if c < 0x10000 { 3 } else if c < 0x1_0000_0000 { 5 } else { 9 }
@@ -28,3 +27,19 @@ impl MinOutputAdaCalculator {
 }
 #[verifier::external_body] pub fn min_fee_for_size(size: usize, f: &LinearFee) -> (r: Result<Coin, JsError>)
     ensures r is Ok <==> size * f.a() + f.b() <= u64::MAX, r is Ok ==> r->Ok_0.0 == size * f.a() + f.b() { unimplemented!() }
+
+use std::collections::{HashSet, BTreeSet};
+opaque_types!(Address, ByronAddress);
+clone_eq!(ByronAddress);
+impl CborCalculator {
+    /// size of the witness-set map head plus its keys, as a function of the set of fields present (its own loop over a HashSet is not
+    /// under contract: ASSUMED to be a function of the set)
+    pub uninterp spec fn wss_size(fields: Set<WitnessSetNames>) -> nat;
+    #[verifier::external_body] pub fn get_witnesses_set_struct_size(witnesses_fields: &HashSet<WitnessSetNames>) -> (r: usize)
+        ensures r == Self::wss_size(witnesses_fields@), r <= 64 { unimplemented!() }
+    /// size of the (fake) bootstrap witness of a Byron address (builds a real witness: not under contract)
+    pub uninterp spec fn bsize(a: ByronAddress) -> nat;
+    #[verifier::external_body] pub fn get_boostrap_witness_size(address: &ByronAddress) -> (r: usize)
+        ensures r == Self::bsize(*address), r <= 0xffff { unimplemented!() }
+}
+clone_eq!(AssetIndex);
